@@ -203,7 +203,7 @@ func (d DataSpec) Bytes() []byte {
 		// of three to six, one of them at the very start and one at the very end of the stretch: the
 		// longest codes in a row, at every alignment, and directly before the end of a block
 		stretch := 65536
-		if d.Period > 0 {
+		if d.Period >= 256 {
 			stretch = d.Period // (the stretch length can be set, so that a Flush can follow a cluster directly)
 		}
 		for off := 0; off < n; off += stretch {
